@@ -68,7 +68,10 @@ impl TypeChecker {
         }
 
         // Enforce required fields (those without defaults) are present.
-        for (field_name, info) in fields {
+        // `fields` is a hash map: report in a fixed (name) order so the diagnostics do not depend on the process.
+        let mut required: Vec<(&String, &FieldInfo)> = fields.iter().collect();
+        required.sort_by(|a, b| a.0.cmp(b.0));
+        for (field_name, info) in required {
             if !info.has_default && !provided.contains_key(field_name.as_str()) {
                 self.errors.push(errors::missing_required_constructor_field(
                     type_name, field_name, call_span,
